@@ -1,11 +1,16 @@
 /* C06 - rule precedence kernel: "at each position the engine applies the highest-precedence rule (longest sort key
- * first, then earliest rule) among those that match and whose constraint passes; where no rule applies the glyph
- * passes through unchanged".
+ * first, then earliest rule) among those that match and whose constraint passes, executes that rule's substitutions ...
+ * [a parallel assignment over the matched input]; where no rule applies the glyph passes through unchanged".
  * Functions under contract (extracted from /repo on every run):
  *   RuleEntry::operator<, State::empty, FiniteStateMachine::Rules::begin/end/accumulate_rules      src/inc/Rule.h
  *   cmpRuleEntry, Pass::findNDoRule (non-tracing branch)                                            src/Pass.cpp
- * Not decided here (see the report): that the FSM tables accept exactly the rules whose class context matches,
- * constraint evaluation per slot, adjustSlot, pass sequencing.
+ *   Machine::Code::decoder::analyse_opcode, set_ref/set_noref/set_changed, context::context         src/Code.cpp
+ *   Machine::status, Code::deletes, Slot::next                                                      src/inc/*.h
+ * Ghost models (bodies with asserts, not extracted): Pass::runFSM, testConstraint, doAction, adjustSlot,
+ *   SlotMap::collectGarbage in unit c06_find; the store `*out++ = *x++` in unit c06_accumulate.
+ * Not decided here: that the FSM tables accept exactly the rules whose class context matches (Pass::runFSM itself: the
+ *   64-step walk over a linked slot stream exhausted the solver's memory in every formulation tried), constraint
+ *   evaluation per slot, adjustSlot, qsort (trusted to sort by the comparator proved here), pass sequencing.
  */
 #include "types.h"
 #define assert(x) __CPROVER_assert((x), "source assert: " #x)
@@ -17,15 +22,24 @@
 /*@unit {'name':'c06_cmp', 'props':['C06'], 'entry':'h_cmp', 'enforce':'cmpRuleEntry',
   'claims':'cmpRuleEntry (the qsort comparator applied to every success state at load) is negative exactly when a precedes b in the precedence order, positive exactly when b precedes a, zero exactly for the same rule'}@*/
 
-/*@unit {'name':'c06_find', 'props':['C06'], 'entry':'h_find', 'enforce':'Pass_findNDoRule', 'defines':['FIND','GRAPHITE2_NTRACING','NR=8','FINDN=24'], 'kind':'bounded', 'unwind':26,
-  'bound':'candidate list of at most 24 entries (capacity is MAX_RULES=128) over a pass of 8 rules; collaborators runFSM/testConstraint/doAction/collectGarbage/adjustSlot are ghost models (truth table per rule, call log)',
+/*@unit {'name':'c06_analyse', 'props':['C06'], 'entry':'h_analyse', 'enforce':'decoder_analyse_opcode', 'defines':['ANALYSE'], 'object_bits':11, 'backend':'cadical', 'replay':'c06_rules', 'witness_defines':[], 'witness_vars':['w_opc'],
+  'claims':'loader analysis behind the parallel-assignment semantics of a rule (Machine::Code::decoder::analyse_opcode, all 67 opcodes, symbolic slot position and parameters, exact-size parameter buffer): an action that replaces the glyph of the current slot (put_glyph, put_subs, put_copy from ANOTHER slot - earlier or later - , assoc) marks that slot changed and the code as modifying; every slot an opcode reads (put_copy/put_subs source, push_*_attr, push_feat...) is marked referenced; marks are never cleared, next opens a fresh context, insert steps back, delete sets the delete flag - so apply_analysis inserts a TEMP_COPY for every slot that is changed and read again, and later items see the input glyph'}@*/
+/*@unit {'name':'c06_find', 'props':['C06'], 'entry':'h_find', 'enforce':'Pass_findNDoRule', 'defines':['FIND','GRAPHITE2_NTRACING','NR=8','FINDN=128'], 'kind':'bounded', 'unwind':130,
+  'bound':'candidate list of at most MAX_RULES=128 entries - the capacity of FiniteStateMachine::Rules, so the unwinding of the scan loop is complete (unwinding assertion) - over a pass of 8 rules (entries may repeat); collaborators runFSM/testConstraint/doAction/collectGarbage/adjustSlot are ghost models (truth table per rule, call log)',
   'claims':'findNDoRule (non-tracing build): candidates are tested in list order, each at most once, only while the machine is healthy; the rule acted on is the first candidate whose constraint is true (no earlier candidate passes), its action code is run exactly once, then garbage collection iff the action deletes and adjustSlot with the returned advance; if no candidate passes or the FSM does not run, no mutator is called and the cursor moves to slot->next(); a machine failure stops without action'}@*/
-/*@unit {'name':'c06_accumulate', 'props':['C06'], 'entry':'h_accum', 'enforce':'Rules_accumulate_rules', 'defines':['ACCUM','STUB_STORE','MAXL=8','NRP=16'], 'min_loops':3, 'backend':'cadical', 'timeout':1500,
-  'claims':'accumulate_rules, all list lengths up to the real MAX_RULES=128 (loop contracts): every store goes to the next free entry of the other half of m_rules and never beyond its 128 entries, stores are strictly ascending in the precedence order (output sorted and duplicate-free), every stored entry is read from one of the two input lists, and unless the cap of 128 is reached every entry of both inputs has been stored (an equal entry counts once); m_begin/m_end delimit exactly the stored entries'}@*/
-/*@unit {'name':'c06_accumulate_b', 'props':['C06'], 'entry':'h_accum_b', 'enforce':'Rules_accumulate_rules', 'defines':['ACCUM','REAL_STORE'], 'kind':'bounded', 'unwind':10,
-  'bound':'both sorted input lists have at most 4 entries (rules drawn from a pass of 6 rules with symbolic sort keys); the real MAX_RULES=128, so the output cap is not reached',
-  'replay':'c06_rules', 'witness_defines':['ACCUM','REAL_STORE'], 'witness_vars':['w_nl','w_nr','w_upper','w_sort','w_l','w_r'],
+/*@unit {'name':'c06_accumulate', 'props':['C06'], 'entry':'h_accum', 'enforce':'Rules_accumulate_rules', 'defines':['ACCUM','STUB_STORE','MAXL=4','NRP=8'], 'min_loops':3, 'backend':'cadical', 'object_bits':8, 'timeout':1500, 'cost':100,
+  'assumptions':['Rules::m_rules is modelled as a pointer to a separate 2*MAX_RULES array object (pointer arithmetic and comparisons on it are the same as for the member array)',
+                 'the store *out++ = *x++ is a ghost model with a body (asserts: destination is the next free entry inside the 128-entry half, source is an input entry, strictly after the previous store; effect: ghost log); the real stores run in c06_accumulate_b0/b1',
+                 'harness: both input lists have at most 4 entries over a pass of 8 rules with symbolic sort keys; the loop contracts are inductive over ALL fill levels 0..128 of the output half (g_cnt is havocked), so the cap branch out == lrend is exercised'],
+  'claims':'accumulate_rules with loop contracts on all three loops (inductive invariants, termination): every store goes to the next free entry of the other half of m_rules and never beyond its 128 entries, stores are strictly ascending in the precedence order (output sorted and duplicate-free), every stored entry is read from one of the two input lists, every entry of both inputs is stored (an equal entry counts once) unless the cap of 128 is reached and the entry comes after everything kept; m_begin/m_end delimit exactly the stored entries; an empty state changes nothing; every read of *lre / *rre is inside its list'}@*/
+/*@unit {'name':'c06_accumulate_b0', 'props':['C06'], 'entry':'h_accum_b', 'defines':['ACCUM','REAL_STORE','UPPER=0'], 'kind':'bounded', 'unwind':3, 'backend':'cadical',
+  'bound':'both sorted input lists have at most 1 entry (rules drawn from a pass of 2 rules with symbolic sort keys); the real MAX_RULES=128, so the output cap is not reached',
+  'replay':'c06_rules', 'witness_defines':[], 'witness_vars':['w_nl','w_nr','w_upper','w_sort','w_l','w_r'],
   'claims':'accumulate_rules with the real stores: merging a sorted state list into the sorted candidate list yields, in the other half of m_rules, the sorted duplicate-free union (every output entry is an input entry, every input entry is in the output, strictly ascending in the precedence order); the old half, the state list and everything else are not written'}@*/
+/*@unit {'name':'c06_accumulate_b1', 'props':['C06'], 'entry':'h_accum_b', 'defines':['ACCUM','REAL_STORE','UPPER=1'], 'kind':'bounded', 'unwind':3, 'backend':'cadical',
+  'bound':'both sorted input lists have at most 1 entry (rules drawn from a pass of 2 rules with symbolic sort keys); the real MAX_RULES=128, so the output cap is not reached',
+  'replay':'c06_rules', 'witness_defines':[], 'witness_vars':['w_nl','w_nr','w_upper','w_sort','w_l','w_r'],
+  'claims':'same with the candidate list in the upper half of m_rules'}@*/
 
 /* ------------------------------------------------------------------ shim structs (fields as in src/inc/Rule.h) */
 typedef struct Code Code;
@@ -149,31 +163,6 @@ static bool in_list(const RuleEntry *b, size_t n, const Rule *x)
 /*@extract {'file':'src/inc/Rule.h', 'sig': r'const RuleEntry \* FiniteStateMachine::Rules::end\(\) const', 'emit':'static const RuleEntry * Rules_end(const Rules *self)', 'self':['m_begin','m_end','m_rules']}@*/
 
 #ifdef REAL_STORE
-void Rules_accumulate_rules(Rules *self, const State *state)
-/* class invariant of Rules: the list occupies the start of one of the two halves of m_rules */
-__CPROVER_requires(self == g_self && state == g_state && self->m_begin == g_lbase && self->m_end == g_lbase + g_nl && g_nl <= MAX_RULES
-                   && (g_lbase == self->m_rules || g_lbase == self->m_rules + MAX_RULES))
-/* a loaded State: at most MAX_RULES entries (readStates truncates), sorted by the load-time qsort; the candidate list is sorted */
-__CPROVER_requires(state->rules == g_rbase && state->rules_end == g_rbase + g_nr && g_nr <= MAX_RULES)
-__CPROVER_requires(list_sorted(g_lbase, g_nl) && list_sorted(g_rbase, g_nr))
-/* frame: the two cursors and the half of m_rules that does not hold the current list */
-__CPROVER_assigns(self->m_begin, self->m_end;
-                  self->m_begin == self->m_rules: __CPROVER_object_upto(self->m_rules + MAX_RULES, MAX_RULES * sizeof(RuleEntry));
-                  self->m_begin != self->m_rules: __CPROVER_object_upto(self->m_rules, MAX_RULES * sizeof(RuleEntry)))
-/* an empty state changes nothing */
-__CPROVER_ensures(g_nr == 0 ==> (self->m_begin == g_lbase && self->m_end == g_lbase + g_nl))
-/* otherwise the result is in the other half and respects the cap (class invariant re-established) */
-__CPROVER_ensures(g_nr != 0 ==> (self->m_begin == OTHER_HALF(self, g_lbase) && SAME(self->m_end, self->m_begin) && self->m_end >= self->m_begin && NSIZE(self) <= MAX_RULES))
-/* sorted by the statement's order and duplicate-free (ghost index g_k over adjacent output pairs) */
-__CPROVER_ensures((g_nr != 0 && g_k + 1 < NSIZE(self) && g_k < MAX_RULES) ==> PREC(self->m_begin[g_k].rule, self->m_begin[g_k + 1].rule))
-/* every output entry is an entry of one of the inputs */
-__CPROVER_ensures((g_nr != 0 && g_k < NSIZE(self)) ==> (in_list(g_lbase, g_nl, self->m_begin[g_k].rule) || in_list(g_rbase, g_nr, self->m_begin[g_k].rule)))
-/* every input entry is in the output, unless the cap was reached and it comes after everything kept */
-__CPROVER_ensures((g_nr != 0 && g_i < g_nl) ==> (in_list(self->m_begin, NSIZE(self), g_lbase[g_i].rule)
-                   || (NSIZE(self) == MAX_RULES && PREC(self->m_begin[MAX_RULES - 1].rule, g_lbase[g_i].rule))))
-__CPROVER_ensures((g_nr != 0 && g_j < g_nr) ==> (in_list(self->m_begin, NSIZE(self), g_rbase[g_j].rule)
-                   || (NSIZE(self) == MAX_RULES && PREC(self->m_begin[MAX_RULES - 1].rule, g_rbase[g_j].rule))));
-
 /*@extract {'if':'REAL_STORE', 'file':'src/inc/Rule.h', 'sig': r'void FiniteStateMachine::Rules::accumulate_rules\(const State &state\)',
    'emit':'void Rules_accumulate_rules(Rules *self, const State *state)',
    'subs':[[r'state\.empty\(\)', 'State_empty(state)', 0], [r'\bstate\.', 'state->', 0], [r'\bbegin\(\)', 'Rules_begin(self)', 0], [r'\bend\(\)', 'Rules_end(self)', 0],
@@ -183,19 +172,19 @@ __CPROVER_ensures((g_nr != 0 && g_j < g_nr) ==> (in_list(self->m_begin, NSIZE(se
 
 #ifdef STUB_STORE
 /* ---- unit c06_accumulate: inductive proof with loop contracts.
-   Spec side: each input entry is described by ghost mirror arrays (sort key and byte offset of its rule in the pass's
+   Spec side: each input entry is described by ghost mirror arrays (sort key and number of its rule in the pass's
    rule array), filled by the harness next to the memory it builds; all spec clauses (sortedness, invariants, the store
    model) talk about the mirrors, so that no spec clause dereferences a pointer the loop contract has havocked (CBMC 6.11
    resolves such a dereference against every object of the program).  Code side: the real operator< reads the real memory.
    `*out++ = *x++` (the only store of the function) is replaced by a ghost model with a body: its asserts are the
    memory safety of the store and the ordering of the output, its effect is logged (FRAMEWORK.md item 5; the real stores
-   run in unit c06_accumulate_b). */
+   run in units c06_accumulate_b0/b1). */
 RuleEntry *g_obase;                    /* the half of m_rules that receives the result */
 size_t g_cnt;                          /* entries stored so far */
-unsigned short g_last_sort; long g_last_off;      /* key of the last entry stored */
+unsigned short g_last_sort, g_last_off;      /* key of the last entry stored */
 unsigned short g_lsort[MAX_RULES], g_rsort[MAX_RULES];   /* mirrors: sort key of the rule of L[k] / R[k] */
-long g_loff[MAX_RULES], g_roff[MAX_RULES];               /* mirrors: byte offset of that rule in the rule array (its rank among equal keys) */
-long g_xl_off, g_xr_off;               /* the rules named by L[g_i] and R[g_j] */
+unsigned short g_loff[MAX_RULES], g_roff[MAX_RULES];     /* mirrors: number of that rule = its position in the rule array (the rank among equal keys) */
+unsigned short g_xl_off, g_xr_off;     /* the rules named by L[g_i] and R[g_j] */
 bool g_seen_l, g_seen_r;               /* has an entry naming that rule been stored? */
 #define LIDX(p) ((size_t)(OFF(p) - OFF(g_lbase)) / sizeof(RuleEntry))
 #define RIDX(p) ((size_t)(OFF(p) - OFF(g_rbase)) / sizeof(RuleEntry))
@@ -212,7 +201,7 @@ static void RuleEntry_store(RuleEntry *dst, const RuleEntry *src)
     __CPROVER_assert(IN_L(src, 1) || IN_R(src, 1), "store: the source is an entry of one of the two inputs");
     const bool fromL = SAME(src, g_lbase);
     const unsigned short s = fromL ? g_lsort[LIDX(src)] : g_rsort[RIDX(src)];
-    const long o = fromL ? g_loff[LIDX(src)] : g_roff[RIDX(src)];
+    const unsigned short o = fromL ? g_loff[LIDX(src)] : g_roff[RIDX(src)];
     __CPROVER_assert(g_cnt == 0 || LAST_BEFORE(s, o), "store: strictly after the previous store in the precedence order");
     g_cnt = g_cnt + 1; g_last_sort = s; g_last_off = o;
     g_seen_l = g_seen_l || o == g_xl_off; g_seen_r = g_seen_r || o == g_xr_off;
@@ -225,21 +214,28 @@ static void RuleEntry_store(RuleEntry *dst, const RuleEntry *src)
 #define MAXL MAX_RULES       /* longest list the harness builds */
 #endif
 /* sorted list: strictly ascending in the precedence order at every adjacent pair (hence duplicate-free) */
-static bool mirror_sorted(const unsigned short *srt, const long *off, size_t n)
+static bool mirror_sorted(const unsigned short *srt, const unsigned short *off, size_t n)
 {
     bool ok = true;
     for (size_t i = 0; i + 1 < MAXL; ++i) ok = ok & (i + 1 >= n || PRECM(srt[i], off[i], srt[i + 1], off[i + 1]));
     return ok;
 }
-/* what the mirrors mean (ghost index k): entry k names the rule at that offset of the rule array, with that sort key */
-#define MIRROR_AT(base, srt, off, k) (ISRULE((base)[k].rule) && OFF((base)[k].rule) == (off)[k] && (base)[k].rule->sort == (srt)[k])
+/* what the mirrors mean: entry k names rule number off[k] of the pass's rule array, whose sort key is srt[k] */
+#define MIRROR_AT(base, srt, off, k) (ISRULE((base)[k].rule) && OFF((base)[k].rule) == (long)((off)[k] * sizeof(Rule)) && (base)[k].rule->sort == (srt)[k])
+static bool mirror_linked(const RuleEntry *b, const unsigned short *srt, const unsigned short *off, size_t n)
+{
+    bool ok = true;
+    for (size_t i = 0; i < MAXL; ++i) ok = ok & (i >= n || MIRROR_AT(b, srt, off, i));
+    return ok;
+}
 
 void Rules_accumulate_rules(Rules *self, const State *state)
 __CPROVER_requires(self == g_self && state == g_state && self->m_begin == g_lbase && self->m_end == g_lbase + g_nl && g_nl <= MAX_RULES
                    && (g_lbase == self->m_rules || g_lbase == self->m_rules + MAX_RULES) && g_obase == OTHER_HALF(self, g_lbase))
 __CPROVER_requires(state->rules == g_rbase && state->rules_end == g_rbase + g_nr && g_nr <= MAX_RULES)
 __CPROVER_requires(mirror_sorted(g_lsort, g_loff, g_nl) && mirror_sorted(g_rsort, g_roff, g_nr))
-__CPROVER_requires((g_i >= g_nl || MIRROR_AT(g_lbase, g_lsort, g_loff, g_i)) && (g_j >= g_nr || MIRROR_AT(g_rbase, g_rsort, g_roff, g_j)))
+/* both lists hold rules of this pass (mirrors describe the memory) and are sorted by the statement's order */
+__CPROVER_requires(mirror_linked(g_lbase, g_lsort, g_loff, g_nl) && mirror_linked(g_rbase, g_rsort, g_roff, g_nr))
 __CPROVER_requires(g_cnt == 0 && !g_seen_l && !g_seen_r && (g_i >= g_nl || g_xl_off == g_loff[g_i]) && (g_j >= g_nr || g_xr_off == g_roff[g_j]))
 __CPROVER_assigns(self->m_begin, self->m_end, g_cnt, g_last_sort, g_last_off, g_seen_l, g_seen_r)
 __CPROVER_ensures(g_nr == 0 ==> (self->m_begin == g_lbase && self->m_end == g_lbase + g_nl && g_cnt == 0))
@@ -257,8 +253,6 @@ __CPROVER_ensures((g_nr != 0 && g_j < g_nr) ==> (g_seen_r || (g_cnt == MAX_RULES
 #define INV_ORDER  (g_cnt == 0 || ((LI >= g_nl || LAST_BEFORE(g_lsort[LI], g_loff[LI])) && (RI >= g_nr || LAST_BEFORE(g_rsort[RI], g_roff[RI]))))
 /* everything before the heads has been stored; the ghost entries, if still ahead, are not before their list's head */
 #define INV_SEEN   ((g_i >= LI || g_i >= g_nl || g_seen_l) && (g_j >= RI || g_j >= g_nr || g_seen_r))
-#define NOT_BEFORE(s1, o1, s2, o2) (!PRECM(s1, o1, s2, o2))
-#define INV_AHEAD  ((g_i < LI || g_i >= g_nl || NOT_BEFORE(g_lsort[g_i], g_loff[g_i], g_lsort[LI], g_loff[LI])) && (g_j < RI || g_j >= g_nr || NOT_BEFORE(g_rsort[g_j], g_roff[g_j], g_rsort[RI], g_roff[RI])))
 /* ghost re-anchoring of a cursor the loop contract havocked: the identity (asserted), it only tells the tool which object the cursor is in */
 #define ANCHOR_L { const RuleEntry *a_ = g_lbase + (lre - g_lbase); __CPROVER_assert(a_ == lre, "anchor is the identity"); lre = a_; }
 #define ANCHOR_R { const RuleEntry *a_ = g_rbase + (rre - g_rbase); __CPROVER_assert(a_ == rre, "anchor is the identity"); rre = a_; }
@@ -285,23 +279,6 @@ __CPROVER_ensures((g_nr != 0 && g_j < g_nr) ==> (g_seen_r || (g_cnt == MAX_RULES
                   __CPROVER_loop_invariant(INV_SEEN)
                   __CPROVER_decreases(g_nr - RI)"""}}@*/
 
-static void run_accum(Rules *R, RuleEntry *lbase, RuleEntry *obase, Rule *rs, const unsigned short *sort)
-{
-    size_t nl = nondet_size_t(), nr = nondet_size_t();
-    unsigned char a[MAXL], b[MAXL];
-    __CPROVER_assume(nl <= MAXL && nr <= MAXL);
-    R->m_begin = lbase; R->m_end = lbase + nl;
-    for (size_t k = 0; k < MAXL; ++k) { __CPROVER_assume(a[k] < NRP); lbase[k].rule = rs + a[k]; g_lsort[k] = sort[a[k]]; g_loff[k] = (long)(a[k] * sizeof(Rule)); }
-    RuleEntry *sr = malloc(MAXL * sizeof(RuleEntry)); __CPROVER_assume(sr != NULL);
-    for (size_t k = 0; k < MAXL; ++k) { __CPROVER_assume(b[k] < NRP); sr[k].rule = rs + b[k]; g_rsort[k] = sort[b[k]]; g_roff[k] = (long)(b[k] * sizeof(Rule)); }
-    State *st = malloc(sizeof(State)); __CPROVER_assume(st != NULL);
-    st->rules = sr; st->rules_end = sr + nr;
-    g_self = R; g_state = st; g_lbase = lbase; g_nl = nl; g_rbase = sr; g_nr = nr; g_obase = obase;
-    g_i = nondet_size_t(); g_j = nondet_size_t(); g_cnt = 0; g_seen_l = g_seen_r = false;
-    if (g_i < nl) g_xl_off = g_loff[g_i];
-    if (g_j < nr) g_xr_off = g_roff[g_j];
-    Rules_accumulate_rules(R, st);
-}
 void h_accum(void)
 {
     Rule *rs = malloc(NRP * sizeof(Rule)); __CPROVER_assume(rs != NULL);
@@ -310,34 +287,70 @@ void h_accum(void)
     g_rules = rs; g_nrules = NRP;
     Rules *R = malloc(sizeof(Rules)); __CPROVER_assume(R != NULL);
     R->m_rules = malloc(2 * MAX_RULES * sizeof(RuleEntry)); __CPROVER_assume(R->m_rules != NULL);
-    if (nondet_bool()) run_accum(R, R->m_rules, R->m_rules + MAX_RULES, rs, sort);
-    else               run_accum(R, R->m_rules + MAX_RULES, R->m_rules, rs, sort);
+    size_t nl = nondet_size_t(), nr = nondet_size_t(); bool upper = nondet_bool();
+    unsigned char a[MAXL], b[MAXL];
+    __CPROVER_assume(nl <= MAXL && nr <= MAXL);
+    /* the candidate list (written to both halves at fixed indices; `upper` selects the half that is current) and its mirrors */
+    for (size_t k = 0; k < MAXL; ++k) { __CPROVER_assume(a[k] < NRP); R->m_rules[k].rule = R->m_rules[MAX_RULES + k].rule = rs + a[k]; g_lsort[k] = sort[a[k]]; g_loff[k] = a[k]; }
+    RuleEntry *lbase = R->m_rules + (upper ? MAX_RULES : 0);
+    R->m_begin = lbase; R->m_end = lbase + nl;
+    RuleEntry *sr = malloc(MAXL * sizeof(RuleEntry)); __CPROVER_assume(sr != NULL);
+    for (size_t k = 0; k < MAXL; ++k) { __CPROVER_assume(b[k] < NRP); sr[k].rule = rs + b[k]; g_rsort[k] = sort[b[k]]; g_roff[k] = b[k]; }
+    State *st = malloc(sizeof(State)); __CPROVER_assume(st != NULL);
+    st->rules = sr; st->rules_end = sr + nr;
+    g_self = R; g_state = st; g_lbase = lbase; g_nl = nl; g_rbase = sr; g_nr = nr; g_obase = OTHER_HALF(R, lbase);
+    g_i = nondet_size_t(); g_j = nondet_size_t(); g_cnt = 0; g_seen_l = g_seen_r = false;
+    if (g_i < nl) g_xl_off = g_loff[g_i];
+    if (g_j < nr) g_xr_off = g_roff[g_j];
+    Rules_accumulate_rules(R, st);
     CANARY();
 }
 #endif
 
-/* ---- harness: two sorted lists of entries over a pass of NRB rules with symbolic sort keys */
-#define NRB 6
-#define BL 4
-#define BR 4
+/* ---- unit c06_accumulate_b: the real function with its real stores on the real struct layout, bounded.
+   (dfcc contract instrumentation of these stores runs out of memory even for two-entry lists, so the contract is written as
+   assumptions / assertions of the harness around a direct call; the frame is checked for the old half and both cursors.) */
+#define NRB 2
+#define BL 1
+#define BR 1
 #ifdef REAL_STORE
 void h_accum_b(void)
 {
-    size_t w_nl = nondet_size_t(), w_nr = nondet_size_t(); bool w_upper = nondet_bool();
+    size_t w_nl = nondet_size_t(), w_nr = nondet_size_t(); const bool w_upper = UPPER;       /* which half holds the candidates: one unit per half, keeps offsets concrete */
     unsigned short w_sort[NRB]; unsigned char w_l[BL], w_r[BR];
     __CPROVER_assume(w_nl <= BL && w_nr <= BR);
     Rule *rs = mk_rules(NRB);
     for (int i = 0; i < NRB; ++i) rs[i].sort = w_sort[i];
     Rules *R = malloc(sizeof(Rules)); __CPROVER_assume(R != NULL);
-    R->m_begin = R->m_rules + (w_upper ? MAX_RULES : 0); R->m_end = R->m_begin + w_nl;
-    for (int i = 0; i < BL; ++i) if ((size_t)i < w_nl) { __CPROVER_assume(w_l[i] < NRB); R->m_begin[i].rule = rs + w_l[i]; }
-    RuleEntry *sr = malloc(w_nr * sizeof(RuleEntry)); __CPROVER_assume(sr != NULL);          /* exact size */
+    RuleEntry *const lbase = R->m_rules + (UPPER ? MAX_RULES : 0), *const obase = R->m_rules + (UPPER ? 0 : MAX_RULES);
+    R->m_begin = lbase; R->m_end = lbase + w_nl;
+    for (int i = 0; i < BL; ++i) if ((size_t)i < w_nl) { __CPROVER_assume(w_l[i] < NRB); lbase[i].rule = rs + w_l[i]; }
+    /* the state's list; the entry at rules_end is poisoned so that reading it is a pointer obligation */
+    RuleEntry *sr = malloc((BR + 1) * sizeof(RuleEntry)); __CPROVER_assume(sr != NULL);
     for (int i = 0; i < BR; ++i) if ((size_t)i < w_nr) { __CPROVER_assume(w_r[i] < NRB); sr[i].rule = rs + w_r[i]; }
+    sr[w_nr].rule = NULL;
     State *st = malloc(sizeof(State)); __CPROVER_assume(st != NULL);
     st->rules = sr; st->rules_end = sr + w_nr;
-    g_self = R; g_state = st; g_lbase = R->m_begin; g_nl = w_nl; g_rbase = sr; g_nr = w_nr;
-    g_i = nondet_size_t(); g_j = nondet_size_t(); g_k = nondet_size_t();
+    /* preconditions: both lists sorted by the statement's order (loaded State: load-time qsort; candidate list: previous merges) */
+    __CPROVER_assume(list_sorted(lbase, w_nl) && list_sorted(sr, w_nr));
+    const Rule *oldl[BL]; for (int i = 0; i < BL; ++i) oldl[i] = (size_t)i < w_nl ? lbase[i].rule : NULL;
+
     Rules_accumulate_rules(R, st);
+
+    if (w_nr == 0) __CPROVER_assert(R->m_begin == lbase && R->m_end == lbase + w_nl, "an empty state changes nothing");
+    else {
+        __CPROVER_assert(R->m_begin == obase && SAME(R->m_end, obase) && R->m_end >= obase && NSIZE(R) <= w_nl + w_nr, "result is in the other half of m_rules");
+        const size_t n = NSIZE(R);
+        for (size_t k = 0; k + 1 < BL + BR; ++k) if (k + 1 < n)
+            __CPROVER_assert(PREC(obase[k].rule, obase[k + 1].rule), "output strictly ascending in the precedence order (sorted, duplicate-free)");
+        for (size_t k = 0; k < BL + BR; ++k) if (k < n)
+            __CPROVER_assert(in_list(lbase, w_nl, obase[k].rule) || in_list(sr, w_nr, obase[k].rule), "every output entry is an entry of one of the inputs");
+        for (size_t k = 0; k < BL; ++k) if (k < w_nl) __CPROVER_assert(in_list(obase, n, lbase[k].rule), "every candidate is kept");
+        for (size_t k = 0; k < BR; ++k) if (k < w_nr) __CPROVER_assert(in_list(obase, n, sr[k].rule), "every rule of the state is added");
+    }
+    for (int i = 0; i < BL; ++i) if ((size_t)i < w_nl) __CPROVER_assert(lbase[i].rule == oldl[i], "frame: the old half is not written");
+    for (int i = 0; i < BR; ++i) if ((size_t)i < w_nr) __CPROVER_assert(sr[i].rule == rs + w_r[i], "frame: the state's list is not written");
+    __CPROVER_assert(st->rules == sr && st->rules_end == sr + w_nr, "frame: the state is not written");
     CANARY();
 }
 #endif
@@ -345,7 +358,7 @@ void h_accum_b(void)
 
 /* ================================================================== findNDoRule */
 #ifdef FIND
-typedef struct Slot { struct Slot *m_next, *m_prev; unsigned short m_glyphid; } Slot;
+typedef struct Slot { struct Slot *m_next, *m_prev; unsigned short m_glyphid; } Slot;       /* the three fields the extracted code reads */
 typedef struct SlotMap SlotMap;
 typedef struct Pass Pass;
 struct Code { bool _delete; };
@@ -436,11 +449,11 @@ void h_find(void)
 {
     size_t n = nondet_size_t(), nrules = nondet_size_t();
     __CPROVER_assume(n <= FINDN && nrules <= NR);
-    Rule *rs = mk_rules(nrules);
-    RuleEntry *es = malloc(n * sizeof(RuleEntry)); __CPROVER_assume(es != NULL);                 /* exact size */
+    Rule *rs = mk_rules(NR); g_nrules = nrules;                          /* fixed-size allocations: symbolic-size struct arrays cost minutes */
+    RuleEntry *es = malloc(FINDN * sizeof(RuleEntry)); __CPROVER_assume(es != NULL);             /* reads beyond entry n are caught by the testConstraint model */
     for (size_t k = 0; k < FINDN; ++k) if (k < n) { size_t a = nondet_size_t(); __CPROVER_assume(a < nrules); es[k].rule = rs + a; }
     struct Code *codes = malloc(NR * sizeof(struct Code)); __CPROVER_assume(codes != NULL);
-    for (size_t k = 0; k < NR; ++k) if (k < nrules) { codes[k]._delete = nondet_bool(); rs[k].action = codes + k; }
+    for (size_t k = 0; k < NR; ++k) { codes[k]._delete = nondet_bool(); rs[k].action = codes + k; g_tc[k] = nondet_bool(); g_fail[k] = nondet_bool(); }
     Slot *s0 = malloc(sizeof(Slot)), *s1 = nondet_bool() ? NULL : malloc(sizeof(Slot)); __CPROVER_assume(s0 != NULL);
     s0->m_next = s1;
     Slot **sp = malloc(sizeof(Slot *)); __CPROVER_assume(sp != NULL); *sp = s0;
@@ -454,3 +467,82 @@ void h_find(void)
     CANARY();
 }
 #endif /* FIND */
+
+/* ================================================================== analyse_opcode (temp-copy marking) */
+#ifdef ANALYSE
+typedef void * instr;
+/*@extract {'if':'ANALYSE', 'file':'src/inc/Machine.h', 'kind':'range', 'start': r'enum \{VARARGS', 'end': r';', 'end_inclusive': True}@*/
+/*@extract {'if':'ANALYSE', 'file':'src/inc/Machine.h', 'kind':'range', 'start': r'enum opcode \{', 'end': r'\};', 'end_inclusive': True, 'pre':'typedef ', 'subs':[[r'\};', '} opcode;', 1]]}@*/
+/*@extract {'if':'ANALYSE', 'file':'src/inc/Machine.h', 'kind':'range', 'start': r'struct opcode_t\s*\{', 'end': r'\};', 'end_inclusive': True, 'pre':'typedef ', 'subs':[[r'\};', '} opcode_t;', 1]]}@*/
+#define do_(name) ((void *)1)
+#include "inc/opcode_table.h"
+/*@extract {'if':'ANALYSE', 'file':'src/Code.cpp', 'scope': r'class Machine::Code::decoder\s*\{', 'kind':'range', 'start': r'static const int NUMCONTEXTS', 'end': r';', 'end_inclusive': True,
+            'subs':[[r'static const int NUMCONTEXTS = (\d+);', r'enum { NUMCONTEXTS = \1 };', 1]]}@*/
+/* struct context of Code.cpp (fields as there; its constructor is extracted below) */
+typedef struct context { struct { uint8 changed:1, referenced:1; } flags; uint8 codeRef; } context;
+typedef struct CodeA { size_t _instr_count; bool _modify, _delete; } CodeA;                     /* the fields of Machine::Code that the analysis touches */
+typedef struct decoderA { CodeA *_code_; int16 _slotref; context _contexts[NUMCONTEXTS]; byte _max_ref; } decoderA;
+/*@extract {'if':'ANALYSE', 'file':'src/Code.cpp', 'scope': r'struct context\s*\{', 'ctor': True, 'sig': r'context\(uint8 ref=0\)', 'emit':'static void context_ctor(context *self, uint8 ref)', 'self':['codeRef','flags']}@*/
+/*@extract {'if':'ANALYSE', 'file':'src/Code.cpp', 'sig': r'void Machine::Code::decoder::set_ref\(int index\) throw\(\)', 'emit':'static void decoder_set_ref(decoderA *self, int index)', 'self':['_contexts','_slotref','_max_ref']}@*/
+/*@extract {'if':'ANALYSE', 'file':'src/Code.cpp', 'sig': r'void Machine::Code::decoder::set_noref\(int index\) throw\(\)', 'emit':'static void decoder_set_noref(decoderA *self, int index)', 'self':['_contexts','_slotref','_max_ref']}@*/
+/*@extract {'if':'ANALYSE', 'file':'src/Code.cpp', 'sig': r'void Machine::Code::decoder::set_changed\(int index\) throw\(\)', 'emit':'static void decoder_set_changed(decoderA *self, int index)', 'self':['_contexts','_slotref','_max_ref']}@*/
+
+decoderA *g_dec; const int8 *g_arg; int g_slot0; size_t g_ic0; byte g_maxref0; bool g_mod0, g_del0;
+int g_q;                                   /* ghost index: an arbitrary context */
+bool g_q_changed0, g_q_ref0; uint8 g_q_code0;
+#define INCTX(i) ((i) >= 0 && (i) < NUMCONTEXTS)
+#define CTX(i)   (self->_contexts[i])
+#define REPLACES_GLYPH(o) ((o) == PUT_GLYPH || (o) == PUT_GLYPH_8BIT_OBS || (o) == PUT_SUBS || (o) == PUT_SUBS_8BIT_OBS || ((o) == PUT_COPY && g_arg[0] != 0))
+#define READS_SLOT_AT0(o) ((o) == PUT_COPY || (o) == PUT_SUBS || (o) == PUT_SUBS_8BIT_OBS)
+#define READS_SLOT_AT1(o) ((o) == PUSH_GLYPH_ATTR_OBS || (o) == PUSH_SLOT_ATTR || (o) == PUSH_GLYPH_METRIC || (o) == PUSH_ATT_TO_GATTR_OBS || (o) == PUSH_ATT_TO_GLYPH_METRIC || (o) == PUSH_ISLOT_ATTR || (o) == PUSH_FEAT || (o) == SET_FEAT)
+#define READS_SLOT_AT2(o) ((o) == PUSH_ATT_TO_GLYPH_ATTR || (o) == PUSH_GLYPH_ATTR)
+#define OPENS_CONTEXT(o)  ((o) == NEXT || (o) == COPY_NEXT)
+
+void decoder_analyse_opcode(decoderA *self, const opcode opc, const int8 *arg)
+__CPROVER_requires(self == g_dec && arg == g_arg && self->_slotref == g_slot0 && self->_code_->_instr_count == g_ic0 && self->_max_ref == g_maxref0
+                   && self->_code_->_modify == g_mod0 && self->_code_->_delete == g_del0)
+/* call site (decoder::load after fetch_opcode accepted the opcode): slot position inside the rule; NEXT only while _slotref <= rule length <= 63 */
+__CPROVER_requires(g_slot0 >= -1 && g_slot0 <= 254)
+__CPROVER_requires(!INCTX(g_q) || (self->_contexts[g_q].flags.changed == g_q_changed0 && self->_contexts[g_q].flags.referenced == g_q_ref0 && self->_contexts[g_q].codeRef == g_q_code0))
+__CPROVER_assigns(__CPROVER_object_whole(self), self->_code_->_modify, self->_code_->_delete)
+/* an opcode that replaces the glyph of the current slot - for put_copy: whenever the source is another slot, before or after -
+   marks the current slot changed and the code as modifying */
+__CPROVER_ensures((REPLACES_GLYPH(opc) || opc == ASSOC) && INCTX(g_slot0) ==> CTX(g_slot0).flags.changed)
+__CPROVER_ensures(REPLACES_GLYPH(opc) ==> self->_code_->_modify)
+/* every slot an opcode reads from is marked referenced */
+__CPROVER_ensures((READS_SLOT_AT0(opc) && INCTX(g_slot0 + g_arg[0])) ==> CTX(g_slot0 + g_arg[0]).flags.referenced)
+__CPROVER_ensures((READS_SLOT_AT1(opc) && INCTX(g_slot0 + g_arg[1])) ==> CTX(g_slot0 + g_arg[1]).flags.referenced)
+__CPROVER_ensures((READS_SLOT_AT2(opc) && INCTX(g_slot0 + g_arg[2])) ==> CTX(g_slot0 + g_arg[2]).flags.referenced)
+/* slot position: next opens a fresh context recording where its code starts, insert steps back (not below -1), nothing else moves */
+__CPROVER_ensures(self->_slotref == (OPENS_CONTEXT(opc) ? g_slot0 + 1 : (opc == INSERT && g_slot0 >= 0) ? g_slot0 - 1 : g_slot0))
+__CPROVER_ensures(OPENS_CONTEXT(opc) ==> (!CTX(g_slot0 + 1).flags.changed && !CTX(g_slot0 + 1).flags.referenced && CTX(g_slot0 + 1).codeRef == (uint8)(g_ic0 + 1)))
+/* marks of every other context (ghost index g_q) are never cleared, its code position is kept */
+__CPROVER_ensures((INCTX(g_q) && !(OPENS_CONTEXT(opc) && g_q == g_slot0 + 1)) ==> ((g_q_changed0 ==> CTX(g_q).flags.changed) && (g_q_ref0 ==> CTX(g_q).flags.referenced) && CTX(g_q).codeRef == g_q_code0))
+/* flags of the code object only go up; delete sets the delete flag; the highest slot touched only grows */
+__CPROVER_ensures((g_mod0 ==> self->_code_->_modify) && (g_del0 ==> self->_code_->_delete) && (opc == DELETE ==> self->_code_->_delete) && (opc == INSERT ==> self->_code_->_modify))
+__CPROVER_ensures(self->_max_ref >= g_maxref0 && self->_code_ == __CPROVER_old(self->_code_) && self->_code_->_instr_count == g_ic0);
+
+/*@extract {'if':'ANALYSE', 'file':'src/Code.cpp', 'sig': r'void Machine::Code::decoder::analyse_opcode\(const opcode opc, const int8  \* arg\) throw\(\)',
+   'emit':'void decoder_analyse_opcode(decoderA *self, const opcode opc, const int8 *arg)',
+   'subs':[[r'_contexts\[_slotref\] = context\((.*)\);', r'context_ctor(&_contexts[_slotref], \1);', 0],
+           [r'\bset_changed\(', 'decoder_set_changed(self, ', 0], [r'\bset_ref\(', 'decoder_set_ref(self, ', 0], [r'\bset_noref\(', 'decoder_set_noref(self, ', 0],
+           [r'_code\._', 'self->_code_->_', 0]],
+   'self':['_contexts','_slotref','_max_ref']}@*/
+
+int nondet_int(void); unsigned char nondet_uchar(void); short nondet_short(void);
+void h_analyse(void)
+{
+    decoderA *d = malloc(sizeof(decoderA)); CodeA *c = malloc(sizeof(CodeA)); __CPROVER_assume(d != NULL && c != NULL);
+    d->_code_ = c; c->_modify = nondet_bool(); c->_delete = nondet_bool();
+    int w_opc = nondet_int(); __CPROVER_assume(w_opc >= 0 && w_opc < MAX_OPCODE);
+    /* the parameter bytes of this opcode, exact size (validate_opcode checked that they lie inside the bytecode) */
+    const size_t psz = opcode_table[w_opc].param_sz == VARARGS ? (size_t)nondet_uchar() + 1 : opcode_table[w_opc].param_sz;
+    int8 *arg = malloc(psz); __CPROVER_assume(arg != NULL);
+    g_dec = d; g_arg = arg; g_slot0 = d->_slotref; g_ic0 = c->_instr_count; g_maxref0 = d->_max_ref; g_mod0 = c->_modify; g_del0 = c->_delete;
+    __CPROVER_assume(g_slot0 >= -1 && g_slot0 <= 254);
+    g_q = nondet_int();
+    if (INCTX(g_q)) { g_q_changed0 = d->_contexts[g_q].flags.changed; g_q_ref0 = d->_contexts[g_q].flags.referenced; g_q_code0 = d->_contexts[g_q].codeRef; }
+    decoder_analyse_opcode(d, (opcode)w_opc, arg);
+    CANARY();
+}
+#endif /* ANALYSE */
